@@ -68,6 +68,21 @@ func compressedUnaryConnect(w wireBody) bool {
 	return enc != "" && enc != "identity"
 }
 
+// unaryPrefixIsIncomplete: the first off bytes of this unary Connect body can
+// not be mistaken for a complete body: a compressed stream cut anywhere but at
+// 0 (an empty body is the zero message), or a JSON document cut anywhere (the
+// harness's messages are JSON strings; no proper prefix, the empty one
+// included, is a JSON value).  Prefixes of binary messages are not judged.
+func unaryPrefixIsIncomplete(w wireBody, off int) bool {
+	if w.Proto != PConnect || w.Kind != KUnary || off < 0 || off >= len(w.Body) {
+		return false
+	}
+	if compressedUnaryConnect(w) {
+		return off > 0
+	}
+	return w.JSON
+}
+
 func c04Check(c *ev.Collector, k c04Case, baseline wireObs) {
 	w := k.Body
 	obs := deliverLimited(w, k.Script, k.DropTrailers, k.Limit)
@@ -155,14 +170,14 @@ func c04Check(c *ev.Collector, k c04Case, baseline wireObs) {
 			}
 		}
 		unaryConnect := w.Proto == PConnect && w.Kind == KUnary
-		if unaryConnect && cleanEnd && (cut == 0 || !compressedUnaryConnect(w)) {
+		if unaryConnect && cleanEnd && !unaryPrefixIsIncomplete(w, cut) {
 			midMessage = false // a shorter body is a different complete body (not judged)
 		}
 		if (midMessage || failed) && obs.UserEnd == "eof" {
 			bad = true
 			viol("handler-no-clean-end", "clean-eof", "request body %s but the handler's Receive loop saw a clean end after %s", map[bool]string{true: "failed", false: "stopped mid-message"}[failed], shortMsgs(obs.Msgs))
 		}
-		if (midMessage || failed) && obs.End == "ok" && (!unaryConnect || compressedUnaryConnect(w)) {
+		if (midMessage || failed) && obs.End == "ok" && (!unaryConnect || unaryPrefixIsIncomplete(w, cut)) {
 			bad = true
 			viol("handler-no-clean-end", "answered-ok", "request body failed / stopped mid-message but the call was answered ok")
 		}
@@ -595,7 +610,7 @@ func TestC04(t *testing.T) {
 						if !drop && end != "eof" {
 							continue // HTTP trailers cannot follow a failed transport
 						}
-						if w.Proto == PConnect && w.Kind == KUnary && end == "eof" && off < n && (off == 0 || !compressedUnaryConnect(w)) {
+						if w.Proto == PConnect && w.Kind == KUnary && end == "eof" && off < n && !unaryPrefixIsIncomplete(w, off) {
 							continue // a shorter unary Connect body is a different complete body (not judged)
 						}
 						batch = append(batch, c04Case{Body: w, Script: memhttp.Script{Cut: off, End: end, WithLast: wl}, DropTrailers: drop})
